@@ -157,7 +157,8 @@ fn flag_choice(s: &mut Src<'_>) -> ConsensusFlags {
         Signature::default()
     };
     CASE_SIG.with(|c| *c.borrow_mut() = sig);
-    f
+    // operator flags (hard-fork activations): every subset
+    f | proglevel::op_flag_subset(s.below(64))
 }
 
 struct Out {
@@ -492,6 +493,7 @@ pub fn case_structured(bytes: &[u8], ctx: &mut Ctx) -> CaseResult {
     // ---- the generator program
     let mut refs: Vec<Vec<u8>> = vec![];
     let form_name;
+    let mut labels_extra: Vec<&'static str> = vec![];
     let program: Vec<u8> = {
         let t = &mut out.tree;
         match form {
@@ -555,7 +557,14 @@ pub fn case_structured(bytes: &[u8], ctx: &mut Ctx) -> CaseResult {
             4 => {
                 form_name = "procedural-computed-atoms";
                 let mut budget = 48usize;
-                let prog = computed_program(t, out.output, &mut s, &mut budget, 0);
+                let mut prog = computed_program(t, out.output, &mut s, &mut budget, 0);
+                if s.chance(80) {
+                    // an operator probe in front: its outcome depends on the operator
+                    // flags, which both paths receive alike
+                    let (p, name) = proglevel::with_probe(t, prog, &mut s);
+                    prog = p;
+                    labels_extra.push(name);
+                }
                 let mut a = Allocator::new();
                 let n = gentree::build(&mut a, t, prog, BuildMode::PLAIN);
                 serialize(&a, n, backrefs)
@@ -574,6 +583,9 @@ pub fn case_structured(bytes: &[u8], ctx: &mut Ctx) -> CaseResult {
     let limit_kind = s.below(8);
     ctx.ran_dry(s.ran_dry());
     ctx.label(format!("form:{form_name}"));
+    for l in &labels_extra {
+        ctx.label(*l);
+    }
     for l in &out.labels {
         ctx.label(l.clone());
     }
